@@ -536,6 +536,19 @@ func (o *Oracle) judgeAuthSignOut(e *Exchange) {
 		return
 	}
 	rev := l3Child(e, "revoke")
+	if rev == nil && e.Overlap {
+		// request coalescing (C16) lets a submission join the identical revocation that an overlapping submission
+		// started earlier: a revocation of this very session's token, of this step, still outstanding when this
+		// request arrived, is the one that answers it
+		for _, c := range o.w.Log.Ended(0, L3) {
+			if c.Step != e.Step || c.Seq > e.Seq || c.Done < e.At || !(strings.HasSuffix(c.Path, "/revoke") || strings.HasSuffix(c.Path, "revoke")) {
+				continue
+			}
+			if tok := firstOr(append(formValuesOf(c, "token"), "")); tok != "" && (tok == S.RefreshToken || tok == S.AccessToken) {
+				rev = c
+			}
+		}
+	}
 	cleared := clearsCookieAt(e, name, o.abs(e.Done).Add(time.Second))
 	redirected := e.Status >= 300 && e.Status < 400
 	revOK := false
